@@ -276,11 +276,10 @@ func c10GenRequest(r *vRand, ds *qeDataset, socket, shortCV bool, hot c10Hot, hi
 			}
 			for i := 0; i < ng; i++ {
 				gc := vPick(r, []string{"plugin_output", "display_name", "state", "check_command", "notes", "alias", "name", "host_name", "custom_variables", "groups"})
-				if socket && gc != "state" && gc != "host_name" {
-					// the group lines are ordered by the text in result column 0 and lines with equal texts come out in
-					// Go map order, so two evaluations of the same request differ: list valued keys (different lists,
-					// same text) and strings with a NUL byte, which the key splitting cuts at the NUL (known finding
-					// D30 of C05; the adversarial strings of this stream contain one). Keys that are never injected:
+				if socket && (gc == "custom_variables" || gc == "groups") {
+					// list valued keys: different lists can have the same text in result column 0, by which the group
+					// lines are ordered - such lines come out in Go map order, two evaluations of one request differ.
+					// (Strings with a NUL byte had the same effect until /repo c443ad3: the key splitting cut them.)
 					gc = "name"
 				}
 				if gc == "custom_variables" && !shortCV {
